@@ -1,8 +1,298 @@
-//! Family "shardedge" (stub: not implemented yet).
-use crate::Ctx;
-use serde_json::Value;
+//! Family "shardedge": the shard/edge logics of `sux::func::shard_edge`
+//! (property C16, with C12 for arbitrary signatures).
+//!
+//! Episode: `{"fam":"shardedge","logic":"FuseLge3Shards","sigw":2,"ops":[...]}`.
+//! `logic` x `sigw` selects one `ShardEdge<[u64; sigw], 3>` implementation;
+//! the instance starts as `Default::default()`. Operations:
+//!
+//! * `shards {n, eps}`      -> `set_up_shards(n, eps)`
+//! * `graphs {n, ms}`       -> `set_up_graphs(n, max_shard)`; `ms` is a recipe
+//!   `{"k":"avg"|"max"|"mid","i":..}` (smallest / largest / intermediate size of
+//!   the largest shard that `VBuilder::try_seed` accepts for `n` keys in the
+//!   current number of shards), `{"k":"over","i":..}` / `{"k":"all"}` (larger
+//!   than that, up to all keys in one shard: `try_seed` sets up the graphs
+//!   before it rejects such a shard) or `{"k":"abs","v":limbs}`
+//! * `reload {mode}`, `mem_size`, `state`
+//! * `edge {sig}`           -> everything the logic says about one signature
+//!
+//! Numbers that may exceed 2^31 are base-2^15 limb lists, signature words are
+//! lists of set-bit positions. Nothing is judged here.
 
-pub fn run(_ep: &Value, _ctx: &mut Ctx) {
-    eprintln!("family shardedge not implemented");
-    std::process::exit(2);
+use crate::util::*;
+use crate::{guard, Ctx};
+use serde_json::{json, Value};
+use epserde::prelude::*;
+use sux::func::shard_edge::*;
+use sux::utils::Sig;
+
+/// Serializes the logic with ε-serde and loads it back in one of three ways
+/// (C15): the loaded copy replaces the instance under test.
+macro_rules! reloader {
+    ($t:ty) => {{
+        fn f(e: &$t, mode: &str) -> Result<$t, String> {
+            let mut buf: Vec<u8> = Vec::new();
+            e.serialize(&mut buf).map_err(|x| format!("serialize: {x}"))?;
+            match mode {
+                "full" => <$t>::deserialize_full(&mut std::io::Cursor::new(&buf)).map_err(|x| format!("full: {x}")),
+                "eps" => {
+                    let mut al = vec![0u128; buf.len() / 16 + 1];
+                    let bytes = unsafe { std::slice::from_raw_parts_mut(al.as_mut_ptr() as *mut u8, buf.len()) };
+                    bytes.copy_from_slice(&buf);
+                    let r = <$t>::deserialize_eps(bytes).map_err(|x| format!("eps: {x}"))?;
+                    Ok(r)
+                }
+                "mmap" => {
+                    // a failing temporary directory is a tool failure, not an observation
+                    let dir = tempfile::tempdir().unwrap_or_else(|x| tool_fail(&x.to_string()));
+                    let path = dir.path().join("logic.bin");
+                    e.store(&path).unwrap_or_else(|x| tool_fail(&format!("store: {x}")));
+                    let m = <$t>::mmap(&path, Flags::empty()).map_err(|x| format!("mmap: {x}"))?;
+                    let r: $t = *m;
+                    Ok(r)
+                }
+                _ => Err("unknown reload mode".into()),
+            }
+        }
+        f
+    }};
+}
+
+fn tool_fail(msg: &str) -> ! {
+    eprintln!("shardedge: {msg}");
+    std::process::exit(2)
+}
+
+fn lim(x: usize) -> Value {
+    json!(limbs(x as u128))
+}
+
+fn words_of<T: Copy>(x: &T) -> Vec<u64> {
+    let n = std::mem::size_of::<T>() / 8;
+    // SAFETY: signatures are `[u64; 1]` or `[u64; 2]`
+    unsafe { std::slice::from_raw_parts(x as *const T as *const u64, n) }.to_vec()
+}
+
+fn sig_bits(words: &[u64]) -> Value {
+    Value::Array(words.iter().map(|&w| json!(bits_of_u128(w as u128))).collect())
+}
+
+/// "... Segment size: 2^9 Number of segments: 114" / "... vertices per shard: 369"
+fn geometry(disp: &str) -> Value {
+    fn after<'a>(s: &'a str, key: &str) -> Option<&'a str> {
+        s.find(key).map(|k| {
+            let t = &s[k + key.len()..];
+            let e = t.find(|c: char| !c.is_ascii_digit()).unwrap_or(t.len());
+            &t[..e]
+        })
+    }
+    if let (Some(s), Some(k)) = (after(disp, "Segment size: 2^"), after(disp, "Number of segments: ")) {
+        if let (Ok(s), Ok(k)) = (s.parse::<u64>(), k.parse::<u128>()) {
+            return json!({"kind": "fuse", "s": s, "segs": limbs(k)});
+        }
+    }
+    if let Some(v) = after(disp, "Number of vertices per shard: ") {
+        if let Ok(v) = v.parse::<u128>() {
+            return json!({"kind": "mwhc", "per": limbs(v)});
+        }
+    }
+    json!({"kind": "unknown"})
+}
+
+/// Size of the largest shard passed to `set_up_graphs`, chosen inside what
+/// `try_seed` accepts: ceil(n / shards) <= ms <= 1.01 * n / shards (as f64).
+fn max_shard(n: usize, bits: u32, recipe: &Value) -> usize {
+    let k = recipe["k"].as_str().unwrap_or("avg");
+    if k == "abs" {
+        return of_limbs(&recipe["v"]) as usize;
+    }
+    let shards = 1u128 << bits;
+    let lo = ((n as u128 + shards - 1) / shards) as usize;
+    if bits == 0 {
+        return n;
+    }
+    let mut hi = (1.01 * n as f64 / shards as f64).floor() as usize;
+    while hi > lo && hi as f64 > 1.01 * n as f64 / shards as f64 {
+        hi -= 1;
+    }
+    if hi < lo {
+        hi = lo;
+    }
+    match k {
+        "avg" => lo,
+        "max" => hi,
+        // beyond what try_seed accepts, but still passed to set_up_graphs before the check
+        "over" => {
+            let i = recipe["i"].as_u64().unwrap_or(1) as usize;
+            (hi + 1 + ((lo as u128 * i as u128) / 64) as usize).min(n)
+        }
+        "all" => n,
+        _ => {
+            let i = recipe["i"].as_u64().unwrap_or(1) as usize;
+            lo + ((hi - lo) as u128 * (i.min(16) as u128) / 16) as usize
+        }
+    }
+}
+
+fn state<S: Sig + Copy, E: ShardEdge<S, 3>>(e: &E) -> Value {
+    let nv = e.num_vertices();
+    let ns = e.num_shards();
+    let disp = format!("{}", e);
+    json!({
+        "bits": e.shard_high_bits(),
+        "nshards": lim(ns),
+        "nv": lim(nv),
+        "nsk": lim(e.num_sort_keys()),
+        "blen": limbs(nv as u128 * ns as u128),
+        "geom": geometry(&disp),
+        "disp": disp,
+    })
+}
+
+/// The projection calls the code under test (`num_vertices()` multiplies):
+/// a panic there is an observation of the operation that led to this state.
+fn proj<S: Sig + Copy, E: ShardEdge<S, 3>>(e: &E) -> Result<Value, String> {
+    guard(|| state::<S, E>(e)).map_err(|m| format!("projection: {m}"))
+}
+
+fn merge(mut a: Value, b: Value) -> Value {
+    if let (Value::Object(x), Value::Object(y)) = (&mut a, b) {
+        for (k, v) in y {
+            x.insert(k, v);
+        }
+    }
+    a
+}
+
+fn drive<S: Sig + Copy, E: ShardEdge<S, 3> + mem_dbg::MemSize>(
+    ep: &Value,
+    ctx: &mut Ctx,
+    mk: fn(&[u64]) -> S,
+    reload: fn(&E, &str) -> Result<E, String>,
+) {
+    let mut e = E::default();
+    for op in ep["ops"].as_array().unwrap() {
+        ctx.begin(op);
+        let name = op["op"].as_str().unwrap();
+        let r: Result<Value, String> = match name {
+            "shards" => {
+                let n = of_limbs(&op["n"]) as usize;
+                let eps: f64 = op["eps"].as_str().unwrap().parse().unwrap();
+                let mut t = e;
+                let r = guard(|| {
+                    t.set_up_shards(n, eps);
+                    t
+                });
+                r.and_then(|t| {
+                    e = t;
+                    proj::<S, E>(&e)
+                })
+            }
+            "graphs" => {
+                let n = of_limbs(&op["n"]) as usize;
+                let ms = max_shard(n, e.shard_high_bits(), &op["ms"]);
+                let mut t = e;
+                let r = guard(|| {
+                    let (c, lge) = t.set_up_graphs(n, ms);
+                    (t, c, lge)
+                });
+                match r {
+                    Ok((t, c, lge)) => {
+                        e = t;
+                        match proj::<S, E>(&e) {
+                            Ok(st) => Ok(merge(st, json!({"msv": lim(ms), "c": format!("{}", c), "lge": lge}))),
+                            Err(m) => {
+                                ctx.emit(op, "panic", json!({"msv": lim(ms), "msg": m}));
+                                continue;
+                            }
+                        }
+                    }
+                    // a panicking set-up leaves the instance as it was (Copy type)
+                    Err(m) => {
+                        ctx.emit(op, "panic", json!({"msv": lim(ms), "msg": m}));
+                        continue;
+                    }
+                }
+            }
+            "state" => proj::<S, E>(&e),
+            "reload" => {
+                let mode = op["mode"].as_str().unwrap_or("full").to_string();
+                match guard(|| reload(&e, &mode)) {
+                    Ok(Ok(t)) => {
+                        e = t;
+                        proj::<S, E>(&e)
+                    }
+                    Ok(Err(m)) => Ok(json!({"ioerr": m})),
+                    Err(m) => Err(m),
+                }
+            }
+            "mem_size" => guard(|| e.mem_size(mem_dbg::SizeFlags::default())).map(|r| json!({"res": r})),
+            "edge" => {
+                let words: Vec<u64> = op["sig"]
+                    .as_array()
+                    .unwrap()
+                    .iter()
+                    .map(|w| u128_of_bits(w) as u64)
+                    .collect();
+                let sig = mk(&words);
+                guard(|| {
+                    let bits = e.shard_high_bits();
+                    let edge = e.edge(sig);
+                    let ls = e.local_sig(sig);
+                    let le = e.local_edge(ls);
+                    let sh = e.shard(sig);
+                    let sk = e.sort_key(sig);
+                    let hb = sig.high_bits(bits, (1u64 << bits) - 1);
+                    let eh = e.edge_hash(ls);
+                    json!({
+                        "edge": [lim(edge[0]), lim(edge[1]), lim(edge[2])],
+                        "ledge": [lim(le[0]), lim(le[1]), lim(le[2])],
+                        "lsig": sig_bits(&words_of(&ls)),
+                        "sh": lim(sh),
+                        "sk": lim(sk),
+                        "hb": limbs(hb as u128),
+                        "eh": bits_of_u128(eh as u128),
+                    })
+                })
+            }
+            _ => Err("na".into()),
+        };
+        match r {
+            Ok(f) => ctx.emit(op, "ret", f),
+            Err(m) if m == "na" => ctx.emit(op, "na", json!({})),
+            Err(m) => ctx.emit(op, "panic", json!({"msg": m})),
+        }
+    }
+}
+
+fn mk1(w: &[u64]) -> [u64; 1] {
+    [w[0]]
+}
+fn mk2(w: &[u64]) -> [u64; 2] {
+    [w[0], w[1]]
+}
+
+pub fn run(ep: &Value, ctx: &mut Ctx) {
+    let logic = ep["logic"].as_str().unwrap_or("?").to_string();
+    let sigw = ep["sigw"].as_u64().unwrap_or(0);
+    let hdr = json!({"op": "BEGIN", "fam": "shardedge", "src": ep.get("src").cloned().unwrap_or(json!("?")),
+                     "logic": logic, "sigw": sigw});
+    ctx.begin(&hdr);
+    ctx.emit(&hdr, "ret", json!({}));
+    match (logic.as_str(), sigw) {
+        ("FuseLge3Shards", 2) => drive::<[u64; 2], FuseLge3Shards>(ep, ctx, mk2, reloader!(FuseLge3Shards)),
+        ("FuseLge3FullSigs", 2) => drive::<[u64; 2], FuseLge3FullSigs>(ep, ctx, mk2, reloader!(FuseLge3FullSigs)),
+        ("FuseLge3NoShards", 2) => drive::<[u64; 2], FuseLge3NoShards>(ep, ctx, mk2, reloader!(FuseLge3NoShards)),
+        ("FuseLge3NoShards", 1) => drive::<[u64; 1], FuseLge3NoShards>(ep, ctx, mk1, reloader!(FuseLge3NoShards)),
+        #[cfg(feature = "mwhc")]
+        ("Mwhc3Shards", 2) => drive::<[u64; 2], Mwhc3Shards>(ep, ctx, mk2, reloader!(Mwhc3Shards)),
+        #[cfg(feature = "mwhc")]
+        ("Mwhc3NoShards", 2) => drive::<[u64; 2], Mwhc3NoShards>(ep, ctx, mk2, reloader!(Mwhc3NoShards)),
+        _ => {
+            // a logic this build does not contain: every op is "na"
+            for op in ep["ops"].as_array().unwrap() {
+                ctx.begin(op);
+                ctx.emit(op, "na", json!({}));
+            }
+        }
+    }
 }
